@@ -440,6 +440,41 @@ func c08Child() {
 		}
 		wg.Wait()
 	}
+	// phase 5: ONE shared program whose member / method / call sites see receivers of DIFFERENT dynamic types at the same time
+	// (interface{}-typed operands): whatever a site remembers about the receiver it met belongs to one run
+	{
+		type recv struct {
+			obj  interface{}
+			want string
+		}
+		recvs := []recv{{c08Cat{"tom"}, ""}, {&c08Dog{"rex", 3}, ""}, {c08Fish{}, ""}, {map[string]interface{}{"Name": func() string { return "m" }, "Label": "lm", "Legs": func() int { return 0 }}, ""}}
+		src := "[Obj.Name(), Obj.Legs(), Obj.Label, Obj.Name() + \"!\", Obj?.Legs()]"
+		p, err := expr.Compile(src)
+		if err == nil {
+			for i := range recvs {
+				out, rerr := expr.Run(p, map[string]interface{}{"Obj": recvs[i].obj})
+				recvs[i].want = fmt.Sprintf("%#v / %v", out, rerr)
+			}
+			for g := 0; g < G; g++ {
+				wg.Add(1)
+				go func(g int) {
+					defer wg.Done()
+					var ms []c08Mismatch
+					n := 0
+					for it := 0; it < 4000 && len(ms) == 0; it++ {
+						r := recvs[(g+it)%len(recvs)]
+						out, rerr := expr.Run(p, map[string]interface{}{"Obj": r.obj})
+						n++
+						if got := fmt.Sprintf("%#v / %v", out, rerr); got != r.want {
+							ms = append(ms, c08Mismatch{"run", src, fmt.Sprintf("receivers of several dynamic types (this run: %T)", r.obj), -1, r.want, got, g})
+						}
+					}
+					report(ms, n, 0)
+				}(g)
+			}
+			wg.Wait()
+		}
+	}
 	cr.Runs, cr.Compiles = runs, compiles
 
 	// nothing shared was modified
@@ -466,6 +501,29 @@ func c08Child() {
 		panic(err)
 	}
 }
+
+// receivers of phase 5: the methods Name / Legs sit at different indices of the three method sets
+type c08Cat struct{ Label string }
+
+func (c c08Cat) Legs() int    { return 4 }
+func (c c08Cat) Name() string { return "cat " + c.Label }
+
+type c08Dog struct {
+	Label string
+	N     int
+}
+
+func (d *c08Dog) Bark() string { return "wuff" }
+func (d *c08Dog) Age() int     { return d.N }
+func (d *c08Dog) Legs() int    { return 4 }
+func (d *c08Dog) Name() string { return "dog " + d.Label }
+
+type c08Fish struct{ Label string }
+
+func (c08Fish) Name() string  { return "fish" }
+func (c08Fish) Zebra() string { return "z" }
+func (c08Fish) Legs() int     { return 0 }
+func (c08Fish) Alpha() string { return "alpha" }
 
 // ---------------------------------------------------------------- the parent
 func c08HarnessDir() string {
